@@ -1395,7 +1395,11 @@ fn build_moov_box(
     metadata: Option<&Metadata>,
 ) -> Vec<u8> {
     // Calculate duration in media timescale, then convert to movie timescale (ms)
-    let video_duration_media = video_tables.total_duration();
+    // The movie lasts as long as its longest track (both tracks use the media timescale).
+    let audio_duration_media = audio
+        .map(|(_, audio_tables)| audio_tables.total_duration())
+        .unwrap_or(0);
+    let video_duration_media = video_tables.total_duration().max(audio_duration_media);
     let video_duration_ms =
         (video_duration_media * MOVIE_TIMESCALE as u64 / MEDIA_TIMESCALE as u64) as u32;
 
